@@ -1,9 +1,12 @@
 #!/bin/bash
 # Must-fail corpus: every sed mutant must (a) still compile, (b) make the quick check of its property exit 1.
-# usage: selftest.sh [property]   — works on /repo in place (repo must be clean), restores each file with git checkout -- <file>
+# usage: selftest.sh [property]   — works in a scratch worktree of /repo HEAD (removed afterwards), so /repo can be edited meanwhile
 export GOFLAGS=-mod=mod GOPROXY=off GOSUMDB=off GOTOOLCHAIN=local
-cd /repo
-git diff --quiet || { echo "REPO DIRTY"; exit 2; }
+W=${W:-/tmp/wt-selftest}
+git -C /repo worktree remove --force $W 2>/dev/null; rm -rf $W
+git -C /repo worktree add -q --detach $W HEAD
+GZV=${GZV:-/tmp/gzv-selftest}; cp /verif/bin/gzv $GZV
+cd $W
 ok=0; bad=0
 while IFS='|' read -r prop file expr what; do
   [[ "$prop" =~ ^#|^$ ]] && continue
@@ -12,7 +15,7 @@ while IFS='|' read -r prop file expr what; do
   sed -i -z "$expr" $file 2>/dev/null || sed -i "$expr" $file
   if cmp -s $file /tmp/selftest_orig; then echo "NOCHANGE  $prop $what"; bad=$((bad+1)); continue; fi
   if [[ $file == *.go ]] && ! go build ./$(dirname $file)/ 2>/dev/null; then echo "NOCOMPILE $prop $what"; git checkout -- $file; bad=$((bad+1)); continue; fi
-  out=$(/verif/bin/gzv check -property $prop -no-evidence -no-replay 2>&1); rc=$?
+  out=$($GZV check -repo $W -property $prop -no-evidence -no-replay 2>&1); rc=$?
   git checkout -- $file
   if [ $rc -eq 1 ]; then ok=$((ok+1)); echo "CAUGHT    $prop $what :: $(echo "$out" | grep '^failed' | head -1 | awk '{print $2}')"; else bad=$((bad+1)); echo "MISSED    $prop $what"; fi
 done < /verif/selftest/sed_mutants.txt
@@ -21,9 +24,10 @@ for pf in /verif/selftest/mutants/*.patch; do
   prop=$(basename $pf | cut -c1-3); [[ $prop == F12* ]] && prop=C16
   [ -n "$1" ] && [ "$1" != "$prop" ] && continue
   git apply $pf 2>/dev/null || { echo "NOAPPLY   $prop $(basename $pf)"; bad=$((bad+1)); continue; }
-  out=$(/verif/bin/gzv check -property $prop -no-evidence -no-replay 2>&1); rc=$?
+  out=$($GZV check -repo $W -property $prop -no-evidence -no-replay 2>&1); rc=$?
   git checkout -- .
   if [ $rc -eq 1 ]; then ok=$((ok+1)); echo "CAUGHT    $prop $(basename $pf) :: $(echo "$out" | grep '^failed' | head -1 | awk '{print $2}')"; else bad=$((bad+1)); echo "MISSED    $prop $(basename $pf)"; fi
 done
 echo "selftest: caught=$ok not-caught-or-invalid=$bad"
+cd /; git -C /repo worktree remove --force $W; rm -rf $W $GZV
 [ $bad -eq 0 ]
